@@ -10,6 +10,7 @@ import (
 	"google.golang.org/protobuf/proto"
 	"pgregory.net/rapid"
 
+	"verif/harness/oas"
 	"verif/harness/rt"
 	"verif/harness/valgen"
 )
@@ -201,6 +202,21 @@ func buildC09(e *engine, p *rt.Package) {
 				if overridden {
 					res.class("override")
 				}
+				// the header parameters as published for this operation (name -> required), when the document is at hand
+				var published map[string]bool
+				if e.cfg.Extra["openapi_dir"] != "" && !ambiguous {
+					if doc, derr := c03Doc(e, p.ID, svc.Name); derr == nil {
+						if _, _, op := oas.Operation(doc, m.Name); op != nil {
+							published = map[string]bool{}
+							for _, prm := range oas.Parameters(doc, op) {
+								if oas.Str(prm["in"]) == "header" {
+									req, _ := prm["required"].(bool)
+									published[strings.ToLower(oas.Str(prm["name"]))] = req
+								}
+							}
+						}
+					}
+				}
 				return func(t *rapid.T) {
 					if srv.regErr != "" {
 						t.Fatalf("%s", srv.regErr)
@@ -208,6 +224,32 @@ func buildC09(e *engine, p *rt.Package) {
 					req := drawRequest(t, info, m, valgenDefault, true)
 					target := buildTarget(info, req.ProtoReflect(), !info.BodyVerb)
 					hdr := http.Header{"Content-Type": []string{"application/json"}}
+					if published != nil && rapid.IntRange(0, 4).Draw(t, "as_published") == 0 {
+						// a request written from the published parameter list alone: every header it marks required, with a
+						// well-formed value, and none of the others. It is never rejected for its headers.
+						res.class("request_from_published_parameters")
+						for _, h := range eff {
+							if published[strings.ToLower(h.GetName())] {
+								hdr[http.CanonicalHeaderKey(h.GetName())] = []string{goodHeaderValue(h)}
+							}
+						}
+						var body []byte
+						if info.BodyVerb {
+							body = []byte("{}")
+						}
+						srv.reset(func(string, string, proto.Message) (proto.Message, error) { return m.NewResp(), nil })
+						rec, panicked := srv.serve(info.Verb, target, hdr, body)
+						calls := srv.taken()
+						desc := fmt.Sprintf("%s %s headers=%v", info.Verb, target, printableHeaders(hdr))
+						if panicked != "" {
+							t.Fatalf("server panicked: %s (%s)", panicked, desc)
+						}
+						res.nontrivial("published|" + desc)
+						if rec.Code != 200 || len(calls) != 1 {
+							t.Fatalf("%s: the request carries every header the OpenAPI document marks required (%v) and was answered %d (%d handler calls): %s", desc, published, rec.Code, len(calls), short(rec.Body.String(), 300))
+						}
+						return
+					}
 					var offending []string
 					grey := false
 					formatted := false
